@@ -295,6 +295,82 @@ func pbCholesky(variant string) bGen {
 	}
 }
 
+// pbForcePDIndefinite: LDL+ForcePD on indefinite symmetric inputs whose pivots
+// all keep their magnitude (d_j = |c_jj| > (theta_j/beta)^2, delta): there the
+// modified factorisation is a smooth function of A (the sign of a negative
+// pivot is flipped, nothing else) and its derivatives are judged against the
+// oracle's own jet evaluation of the recurrence.
+func pbForcePDIndefinite(r *prng.Rand, n int, e elem, sparse bool) *problem {
+	a := newMat(n, n)
+	neg := 0
+	for i := 0; i < n; i++ {
+		d := r.Uniform(1, 3)
+		if r.Chance(0.5) || (i == n-1 && neg == 0) {
+			d = -d
+			neg++
+		}
+		a.set(i, i, d)
+		for j := 0; j < i; j++ {
+			x := r.Uniform(-0.35, 0.35)
+			if r.Chance(0.2) {
+				x = 0
+			}
+			a.set(i, j, x)
+			a.set(j, i, x)
+		}
+	}
+	in := matInput("A", a)
+	in.sym = true
+	pb := pbCholesky("LDL,ForcePD")(r, n, e, sparse)
+	pb.class = "indefinite:pivot-magnitudes-kept"
+	pb.in = []*input{in}
+	pb.orc = func(pb *problem, _ []float64, _ func([]*input) ([]float64, string)) oracle {
+		return forcePDOracle(pb.in[0].mat(), e.eps)
+	}
+	return finish(pb, e)
+}
+
+// runBForcePD is the case list of that cell (its own monitor id so that the
+// addresses of the other cells do not move).
+func runBForcePD(cs *fw.Case, idx int) {
+	r := cs.R
+	e := eR64
+	if r.Chance(0.2) {
+		e = eR32
+	}
+	order := 1 + idx%2
+	n := 1 + (idx/2)%6
+	sparse := r.Chance(0.2)
+	pb := pbForcePDIndefinite(r, n, e, sparse)
+	maxVars := 36
+	if order == 2 {
+		maxVars = 14
+	}
+	p := makePlan(r, pb.in, order, idx%4 < 2 || r.Chance(0.3), maxVars)
+	cfg := &caseCfg{mon: "b", e: e, p: p, maxPairs: 40, r: r}
+	if r.Chance(0.3) {
+		cfg.warm = warmOf(r, pb, e)
+		cfg.warmP = permutedPlan(r, p)
+		cfg.reuse = "reused"
+	}
+	if judge(cs, pb, cfg) {
+		negs := 0
+		for i := 0; i < n; i++ {
+			if pb.in[0].v[i*n+i] < 0 {
+				negs++
+			}
+		}
+		cs.Cover("judged:b.forcepd:" + e.name)
+		cs.Cover(fmt.Sprintf("judged:b.forcepd:order%d", order))
+		cs.Cover(fmt.Sprintf("set:forcepd-shape:n=%d,negative-pivots=%d", n, negs))
+		cs.Nontrivial("forcepd-indef", e.name, p.order, p.mode, fmt.Sprint(pb.in[0].v), p.varOf)
+		if n >= 3 {
+			cs.Sample(map[string]any{"routine": "cholesky|LDL,ForcePD", "class": pb.class, "type": e.name, "n": n, "order": order, "A": fmtVec(pb.in[0].v),
+				"activation": p.mode, "variable_of_entry": p.varOf, "negative_diagonal_entries": negs})
+		}
+	}
+}
+
 // products: receiver of the element type under test; operand storage and
 // operand types vary (a float-typed operand is a constant).
 func pbProduct(op string) bGen {
